@@ -513,6 +513,8 @@ static void GC_Set(var self, var key, var val) {
   gc->minptr = (uintptr_t)key < gc->minptr ? (uintptr_t)key : gc->minptr;
   GC_Resize_More(gc);
   GC_Set_Ptr(gc, key, (bool)c_int(val));
+  /* a destructor that allocates must not start a collection inside the running sweep */
+  if (gc->freelist isnt NULL) { return; }
   if (gc->nitems > gc->mitems) {
     GC_Mark(gc);
     GC_Sweep(gc);
